@@ -175,3 +175,14 @@ Example total_keyerror_refuted :
   okb w = true /\ closedT w = true /\ inb 4%N (channels w) = true /\ kerr w 4%N = true /\ kerr w 2%N = false /\
   get_sampled w 4%N [1#2] = Err EKey /\ oQeqb (sample w 2%N (1#2)) (Some (9#2)) = true.
 Proof. vm_compute. repeat split; reflexivity. Qed.
+
+Lemma total_keyerror_refuted_ex :
+  exists w c t, okb w = true /\ closedT w = true /\ inb c (channels w) = true /\ kerr w c = true /\
+                get_sampled w c [t] = Err EKey.
+Proof.
+  exists (WTrans (WMulti [WTable 4%N [mkE 0 1 Hold; mkE 1 2 Linear]; WTable 3%N [mkE 0 1 Hold; mkE 1 2 Linear]])
+                 (TChain [TParallel [(1%N, TC 3)]; TLinear [1%N; 3%N] [2%N] [[1; 1]]])), 4%N, (1#2).
+  exact (conj (proj1 total_keyerror_refuted) (conj (proj1 (proj2 total_keyerror_refuted))
+        (conj (proj1 (proj2 (proj2 total_keyerror_refuted))) (conj (proj1 (proj2 (proj2 (proj2 total_keyerror_refuted))))
+        (proj1 (proj2 (proj2 (proj2 (proj2 (proj2 total_keyerror_refuted)))))))))).
+Qed.
